@@ -191,6 +191,49 @@ def oracle(ctx):
         for nm, x_, y_ in zip(["dw", "dc", "d2w", "d2c"], list(g1) + list(g2), list(r1) + list(r2)):
             if not torch.allclose(x_, y_, rtol=1e-5, atol=1e-7):
                 ctx.fail("oracle", "mingrad:%s:%s" % (fwd, nm), {"forward": fwd}, x_, y_)
+    backward_options_probe(ctx)
+
+
+def backward_options_probe(ctx):
+    """'backward options select the linear solver': a callable given as the backward method must be the one that
+    solves the transposed Jacobian system (first order) and the systems of its own backward (second order), for
+    problems above and below the size where the default switches solver (seeded defects C04/2, C04/3)"""
+    from xitorch.optimize import rootfinder, equilibrium
+    from xitorch._impls.linalg.solve import exactsolve
+    calls = [0]
+
+    def spy(A, B, E=None, M=None, **unused):
+        calls[0] += 1
+        return exactsolve(A, B, E, M)
+    for n in (3, 8):
+        g = torch.Generator().manual_seed(ctx.seed + n)
+        a = (0.2 * torch.randn(n, dtype=DT, generator=g)).requires_grad_()
+        b = (0.3 * torch.randn(n, dtype=DT, generator=g)).requires_grad_()
+        K = 0.1 * torch.randn(n, n, dtype=DT, generator=g)
+        fp = lambda y, a, b: b + a * torch.sin(y @ K.T + y) * 0.6
+        for fn_name in ("rootfinder", "equilibrium"):
+            calls[0] = 0
+            with warnings.catch_warnings():
+                warnings.simplefilter("ignore")
+                if fn_name == "rootfinder":
+                    y = rootfinder(lambda y, a, b: y - fp(y, a, b), torch.zeros(n, dtype=DT), params=(a, b), method="broyden1",
+                                   f_tol=1e-12, x_tol=1e-12, bck_options={"method": spy})
+                else:
+                    y = equilibrium(fp, torch.zeros(n, dtype=DT), params=(a, b), method="broyden1", f_tol=1e-12, x_tol=1e-12,
+                                    bck_options={"method": spy})
+                c0 = calls[0]
+                g1 = torch.autograd.grad(y.sum(), (a, b), create_graph=True)
+                c1 = calls[0]
+                torch.autograd.grad(g1[0].sum() + g1[1].sum(), (a, b))
+                c2 = calls[0]
+            ctx.count(("bck-options", fn_name, n), nontrivial=True)
+            info = {"functional": fn_name, "unknowns": n, "bck_options": "{'method': <callable>}"}
+            if c0 != 0 or c1 - c0 < 1:
+                ctx.fail("oracle", "rootgrad:backward-method-ignored:first-order", info, {"calls_forward": c0, "calls_first_backward": c1 - c0},
+                         "the given solver runs in the backward pass (and not in the forward pass)")
+            elif c2 - c1 < 1:
+                ctx.fail("oracle", "rootgrad:backward-method-ignored:second-order", info, {"calls_second_backward": c2 - c1},
+                         "the given solver also runs when the backward pass is differentiated")
 
 
 def search(ctx):
